@@ -84,6 +84,32 @@ def check_image(meta, r, model_line, spec_script):
             need = (sub // st["spd"]) * st["spd"] - st["spd"]
             if ln < need and not meta["has_omit"]:
                 probs.append(("signal %d: %d samples submitted before the stop, only %d readable (allowed loss: buffered + one block = down to %d)" % (sid, sub, ln, need), "clean-point-loss"))
+        # statistics of the reopened file: aligned requests over the whole readable prefix, every entry compared with the exact
+        # statistics of the submitted samples (min/max exact, mean within stored precision)
+        if not st.get("omit_req") and proglib.DT_BITS[st["dt"]] not in (24, 64) and st.get("sdf"):
+            for op, res in r["dump1"]:
+                if not op.startswith("stall %d " % sid):
+                    continue
+                t = res.split()
+                if len(t) < 4 or t[1] != "0" or int(t[3]) < 1:
+                    continue
+                incr, count = int(op.split()[2]), int(t[3])
+                exp = spec.get("st %d 0 %d %d" % (sid, incr, count), "")
+                et = exp.split()
+                if len(et) < 2 + count or et[1] != "0":
+                    continue
+                import struct as _st
+                vals = [_st.unpack("<d", _st.pack("<Q", int(h, 16)))[0] for h in t[4:4 + 4 * count]]
+                for k in range(count):
+                    n_, sm, sq, mn, mx = et[2 + k].split(":")
+                    zi = lambda h: -int(h[1:], 16) if h.startswith("-") else int(h, 16)
+                    n_, sm, mn, mx = int(n_), zi(sm), zi(mn), zi(mx)
+                    mean, std, vmin, vmax = vals[4 * k:4 * k + 4]
+                    tol = (2.0 ** -20) * max(1.0, abs(mn), abs(mx))
+                    if vmin != float(mn) or vmax != float(mx) or abs(mean - sm / n_) > tol + abs(sm / n_) * 2.0 ** -20:
+                        probs.append(("signal %d: statistics entry %d of (incr %d) after reopen: mean/min/max %r/%r/%r, submitted prefix has %r/%d/%d"
+                                      % (sid, k, incr, mean, vmin, vmax, sm / n_, mn, mx), "crash-repair-omitted-blocks-unreadable" if st.get("may_omit") else None))
+                        break
         for kind_op, cls in (("an %d -1000000000000" % sid, "anno"), ("ut %d -1000000000000" % sid, "utc")):
             got, rest = proglib.parse_items(d1.get(kind_op, "")[len(kind_op.split()[0]):])
             exp, _ = proglib.parse_items(spec.get(kind_op, "")[len(kind_op.split()[0]):])
@@ -143,7 +169,13 @@ def run_images(ctx, nprog, per_program):
                 t = res.split()
                 if len(t) >= 3 and t[1] == "0":
                     lens[int(op.split()[1])] = int(t[2])
-        spec_scripts.append(crashlib.spec_dump(ctx, meta["ops"], meta["sigs"], lens))
+        stalls = {}
+        for op, res in (r["dump1"] if r["open1"] and r["open1"].split()[1:2] == ["0"] else []):
+            if op.startswith("stall "):
+                t = res.split()
+                if len(t) >= 4 and t[1] == "0" and int(t[3]) > 0:
+                    stalls.setdefault(int(op.split()[1]), []).append((int(op.split()[2]), int(t[3])))
+        spec_scripts.append(crashlib.spec_dump(ctx, meta["ops"], meta["sigs"], lens, stalls))
     model = vlib.run_model("prog", spec_scripts, timeout=3000)
     return cases, parsed, spec_scripts, model
 
